@@ -483,7 +483,18 @@ func concPart(out *shardOut, scen []scenario, shard, nshards int, deadline time.
 				vrt.Log("t%d %s#%d [%d,%d] -> %s", e.Thread, e.Op, e.Tag, e.Call, e.Ret, e.Result)
 			}
 		}
-		st := vrt.Explore(vrt.ExploreConfig{Bound: -1, Deadline: deadline}, body, func(prefix []int, r *vrt.Result) bool {
+		// unlocks are scheduling points too where that is affordable (code that runs after a critical section, such
+		// as the caller reading what Export handed out, then interleaves with the other threads): in quick for the
+		// scenarios with two operations, in thorough for all
+		nops := 0
+		for _, prog := range sc.Threads {
+			nops += len(prog)
+		}
+		up := lib.Tier() == "thorough" || nops <= 2
+		if up {
+			out.Counters["conc_scenarios_with_unlock_points"]++
+		}
+		st := vrt.Explore(vrt.ExploreConfig{Bound: -1, Deadline: deadline, Config: vrt.Config{UnlockPoints: up}}, body, func(prefix []int, r *vrt.Result) bool {
 			if r.Outcome != "ok" {
 				out.Violations = append(out.Violations, lib.Violation{Sig: "conc:" + r.Outcome,
 					Desc:   fmt.Sprintf("scenario %s schedule %v: %s %s", sc, r.ChoiceSeq(), r.Outcome, r.Panic),
